@@ -2224,4 +2224,4 @@ mod tests {
 
 #[cfg(kani)]
 #[path = "/verif/units/kani/page_walker.rs"]
-mod verif_kani;
+pub(crate) mod verif_kani;
